@@ -67,7 +67,21 @@ def addClass (cfg : Cfg) (a : Attrs) (cls : Str) (prepend : Bool) : Except Err A
   if prepend then attrsUpdate cfg a [[(classKey, .str cls)], [(classKey, getArg classKey a)]]
   else attrsUpdate cfg a [[(classKey, getArg classKey a)], [(classKey, .str cls)]]
 
-/-- `Tag.remove_class` (_core.py:767-788) -/
+/-- the rejoined tokens, stored with the mark the class value had: HTML() stays HTML() — C16 "keeps the others" and
+    C03/C04 (an HTML() attribute value is written verbatim, escaping happens exactly once): the remaining tokens of an
+    HTML()-marked value must not be escaped a second time when the tag is rendered -/
+def rejoinVal (a : Attrs) (s : Str) : AttrVal :=
+  match alookup classKey a with
+  | some (.html _) => .html s
+  | _ => .plain s
+
+def rejoinArg (a : Attrs) (s : Str) : AttrArg :=
+  match alookup classKey a with
+  | some (.html _) => .html s
+  | _ => .str s
+
+/-- `Tag.remove_class` (_core.py:767-788), storing what remains with the mark of the original value
+    (the pinned code stores a plain `str`: `removeClassPinned`, defect F-C16b) -/
 def removeClass (cfg : Cfg) (sp : Char → Bool) (a : Attrs) (cls : Str) : Except Err Attrs :=
   if cls.isEmpty then .ok a                              -- `if not class_: return self`
   else
@@ -77,7 +91,18 @@ def removeClass (cfg : Cfg) (sp : Char → Bool) (a : Attrs) (cls : Str) : Excep
       let t := strip sp cls                              -- `str(class_).strip()`
       let new := (tokens sp c).filter fun v => v != t    -- `[v for v in cls.split() if v != class_]`
       if !new.isEmpty then
-        attrsUpdate cfg a [[(classKey, .str (joinStr [' '] new))]]
+        attrsUpdate cfg a [[(classKey, rejoinArg a (joinStr [' '] new))]]
+      else dictPop classKey a
+
+/-- `Tag.remove_class` as pinned: `" ".join(new_classes)` is a plain `str` whatever the class value was -/
+def removeClassPinned (cfg : Cfg) (sp : Char → Bool) (a : Attrs) (cls : Str) : Except Err Attrs :=
+  if cls.isEmpty then .ok a
+  else
+    let c := textOf classKey a
+    if c.isEmpty then .ok a
+    else
+      let new := (tokens sp c).filter fun v => v != strip sp cls
+      if !new.isEmpty then attrsUpdate cfg a [[(classKey, .str (joinStr [' '] new))]]
       else dictPop classKey a
 
 /-- `Tag.has_class` (_core.py:804-808) -/
